@@ -1905,6 +1905,7 @@ double ov_time_tell(OggVorbis_File *vf){
       time_total-=ov_time_total(vf,link);
       if(vf->pcm_offset>=pcm_total)break;
     }
+    if(link<0)link=0; /* pcm_offset is -1 after a failed seek */
   }
 
   return((double)time_total+(double)(vf->pcm_offset-pcm_total)/vf->vi[link].rate);
